@@ -28,7 +28,7 @@ REAL = ["bec2format.bf3file (set_config, derive_comments_from_config, writer, re
         "(derive_auth_blocks_from_config, Bec2File)", "bec2format.configid", "plug-in + pyaes"]
 STUBS = ["medium: SimFS (ENOSPC for failed writes, restart)", "RNG: SimRng", "RefCfg: model of components / comments / "
          "block kinds + own TLV block decoder"]
-PROBES = ["runs-with-assertions-disabled", "second-file-object", "second-set-config", "component-without-type-before-config", "set-config-after-reload", "derive-after-reload",
+PROBES = ["runs-with-assertions-disabled", "edit-through-kept-list-reference", "two-packages-aliasing-check", "second-file-object", "second-set-config", "component-without-type-before-config", "set-config-after-reload", "derive-after-reload",
           "failed-write", "stale-derived-comment-candidate", "derive-blocks-on-empty", "update-block-expected",
           "insert-behind-config"]
 ASSUMPTIONS = ["identifier existence rule taken from the C12 text: version present and (numeric scheme complete or name present)"]
@@ -40,7 +40,8 @@ def gen(st, tier):
     w = st["workload"]
     cfgs = [G.config_spec(w, naming=n, code=c, bus=b, nvals=w.choice([1, 2, 4]))
             for n, c, b in (("full", True, False), ("none", False, True), ("name-only", True, None),
-                            (w.choice(["dev", "both"]), True if w.random() < 0.7 else None, None), (None, None, None))]
+                            (w.choice(["dev", "both", "dev-noname"]), True if w.random() < 0.7 else None, None),
+                            (None, None, None))]
     ops = []
     n = w.choice([3, 4, 5, 6, 8, 10, 12])
     for _ in range(n):
@@ -72,7 +73,7 @@ def gen(st, tier):
         else:
             ops.append(["write", "cfg.bec2"])
             ops.append(["reload", "cfg.bec2"])
-    return {"cfgs": cfgs, "ops": ops, "skey": G.session_key_spec(w, allow_default=False),
+    return {"cfgs": cfgs, "ops": ops, "via_alias": w.random() < 0.4, "skey": G.session_key_spec(w, allow_default=False),
             "aes": rbytes(w, 16).hex(), "rng": w.getrandbits(32)}
 
 
@@ -168,6 +169,8 @@ def run(case):
     cust = bfm.SoftwareCustKeyEncryptor(bytes.fromhex(case["aes"]))
     try:
         bec = bfm.Bec2File(env.bf3file.Bf3File(), [], skey)
+        alias = bec.bf3file.components     # a caller may keep the public list and edit through it
+        prev_cfg_comp = None               # configuration component object of an earlier package
         m_comments = {}
         last = None           # (name of the last durable write, snapshot, block tags)
         codes = {}            # tag 2 -> code of the configuration it was derived from
@@ -226,6 +229,17 @@ def run(case):
                                  "most recent configuration (%d ops vs %d)" % (len(got_ops), len(expected_ops(cfg))))
                 except (ValueError, IndexError) as e:
                     out.fail("C11.config-content", "undecodable", "configuration payload is not decodable: %s" % e)
+                if prev_cfg_comp is not None and cc:
+                    # packages are independent objects: editing the earlier package's configuration component
+                    # must not show in this one
+                    out.probes["two-packages-aliasing-check"] += 1
+                    before_d = list(cc[0].description.items())
+                    prev_cfg_comp.description[0x7E] = b"poke"
+                    if list(cc[0].description.items()) != before_d:
+                        out.fail("C11.others-untouched", "description-shared-between-packages",
+                                 "adding a tag to the configuration component of an earlier package changed the "
+                                 "configuration component of this package (shared description object)")
+                    prev_cfg_comp.description.pop(0x7E, None)
                 out.ev("set_config", ci, len(bf3.components))
             elif k == "derive_comments":
                 _, ci = op
@@ -286,7 +300,10 @@ def run(case):
                 out.ev("derive_blocks", ci, custmode, tags)
             elif k == "fresh_file":
                 # the host starts another package in the same process: nothing may carry over
+                old_cfg = [c for c in bec.bf3file.components if is_cfg_comp(c)]
+                prev_cfg_comp = old_cfg[-1] if old_cfg else prev_cfg_comp
                 bec = bfm.Bec2File(env.bf3file.Bf3File(), [], skey)
+                alias = bec.bf3file.components
                 m_comments = {}
                 last = None
                 codes = {}
@@ -305,7 +322,16 @@ def run(case):
                 has_cfg_before = any(is_cfg_comp(c) for c in bf3.components[:pos])
                 if has_cfg_before:
                     out.probes["insert-behind-config"] += 1
-                bf3.components.insert(pos, comp)
+                if case.get("via_alias"):
+                    alias.insert(pos, comp)     # through the list object fetched when the package was created
+                    out.probes["edit-through-kept-list-reference"] += 1
+                    if comp not in bf3.components:
+                        out.fail("C11.others-untouched", "component-inserted-through-kept-list-lost",
+                                 "a component inserted through the list object obtained earlier from bf3.components is "
+                                 "not in the file (the list was replaced behind the caller's back)")
+                        break
+                else:
+                    bf3.components.insert(pos, comp)
                 out.ev("add_comp", where, 0xC3 in comp.description)
             elif k == "comment":
                 _, key, val = op
@@ -365,6 +391,7 @@ def run(case):
                     out.fail("C11.reload-differs", diff[0], "reloaded file differs from what was written: %s" % diff[1])
                     break
                 bec = got
+                alias = bec.bf3file.components
                 reloaded = True
                 out.ev("reload", len(got.bf3file.components), list(got.auth_blocks))
             # --- invariants after every step ---
